@@ -3,7 +3,7 @@
    case:  hs <connect|dial> (<pkg name> <major> <minor> <patch>)
              (<revision> <database> <user> <password> <quota key> <client name> <read timeout> <handshake timeout>)
              <local address> ((<gap> x<bytes>) ...) <stall | (cut <gap>)> <follow-up>
-   follow-up:  none | (ping x<fed>) | (do (<id> <body> <quota> <initial user> ((k v imp) ...) ((k v) ...)) x<fed>)
+   follow-up:  none | (ping x<fed>) | (do (<id> <body> <quota> <initial user> ((k v imp) ...) ((k v) ...) <nil | (span ..)>) x<fed>)
    times in nanoseconds, strings as byte atoms.
 
    observation:
@@ -64,14 +64,28 @@ Definition get_cq_param (x : sx) : option (bytes * bytes) :=
   | L [k; v] => match get_ab k, get_ab v with Some k, Some v => Some (k, v) | _, _ => None end
   | _ => None
   end.
+(* the span of a traced caller context: nil | (span x<trace id> x<span id> x<trace state> <flags>) *)
+Definition get_cq_span (x : sx) : option (option span) :=
+  if is_sym x "nil" then Some None else
+  match x with
+  | L [h; t; s; st; fl] =>
+    if is_sym h "span" then
+      match get_ab t, get_ab s, get_ab st, get_an fl with
+      | Some t, Some s, Some st, Some fl =>
+        Some (Some {| sp_trace := t ; sp_span := s ; sp_state := st ; sp_flags := fl |})
+      | _, _, _, _ => None
+      end
+    else None
+  | _ => None
+  end.
 Definition get_cquery (x : sx) : option cquery :=
   match x with
-  | L [id; body; qk; iu; L sets; L ps] =>
-    match get_ab id, get_ab body, get_ab qk, get_ab iu, map_opt get_cq_setting sets, map_opt get_cq_param ps with
-    | Some id, Some body, Some qk, Some iu, Some sets, Some ps =>
+  | L [id; body; qk; iu; L sets; L ps; sp] =>
+    match get_ab id, get_ab body, get_ab qk, get_ab iu, map_opt get_cq_setting sets, map_opt get_cq_param ps, get_cq_span sp with
+    | Some id, Some body, Some qk, Some iu, Some sets, Some ps, Some sp =>
       Some {| cq_id := id ; cq_body := body ; cq_quota := qk ; cq_inituser := iu ;
-              cq_settings := sets ; cq_params := ps |}
-    | _, _, _, _, _, _ => None
+              cq_settings := sets ; cq_params := ps ; cq_span := sp |}
+    | _, _, _, _, _, _, _ => None
     end
   | _ => None
   end.
